@@ -33,6 +33,8 @@ def lin_of(v):
 
 
 class RetryDomain(Domain):
+    global_keys = ("#is_last", "#sleeps", "#calls")
+
     def __init__(self, prog, fn, cfg, func_outcome, with_async=False):
         super().__init__(prog, fn)
         self.cfg = cfg
@@ -42,8 +44,16 @@ class RetryDomain(Domain):
         self.func_calls = []
         self.sleep_args = []
 
+    def name_load(self, name, state, node=None):
+        if name == "self" and not state.has("self"):
+            return Opaque("self")
+        return super().name_load(name, state, node)
+
+    def never_none(self, v):
+        return isinstance(v, (Atom, Lin)) or super().never_none(v)
+
     def attr_load(self, objval, node, state):
-        if is_self_attr(node):
+        if is_self_attr(node) or objval == Opaque("self"):  # the instance, under whatever name a helper receives it
             a = node.attr
             if a == "_attempts":
                 return Lin(0, 1, 0)
@@ -128,6 +138,11 @@ class RetryDomain(Domain):
         if name in ("sleep", "time.sleep"):
             self.sleep_args.append(args[0] if args else None)
             return [("ok", NONE, state.set("#sleeps", min(3, state.get("#sleeps", 0) + 1)))]
+        if isinstance(node.func, ast.Name) and self.fn is not None and node.func.id in self.fn.module.functions:
+            # a module-level helper (e.g. the give-up predicate): interpreted in line
+            res = self.inline(node, self.fn.module.functions[node.func.id], args, kwargs, state)
+            if res is not None:
+                return res
         # helper methods of the class are inlined one level (e.g. a _should_retry helper)
         if name.startswith("self.") and name.count(".") == 1 and self.prog is not None:
             m = self.prog.method("RetryingClient", name[5:], required=False)
